@@ -229,6 +229,55 @@ def py_names(n):
     return out
 
 
+def py_dotted(n):
+    """Dotted paths of every Attribute node whose value is a pure Name/Attribute chain, in textual order."""
+    def dotted(x):
+        if isinstance(x, ast.Name):
+            return x.id
+        if isinstance(x, ast.Attribute):
+            d = dotted(x.value)
+            return None if d is None else d + "." + x.attr
+        return None
+    out = []
+
+    def walk(x):
+        t = type(x)
+        if t is ast.Attribute:
+            walk(x.value)
+            d = dotted(x)
+            if d is not None:
+                out.append(d)
+            return
+        if t is ast.IfExp:
+            walk(x.body); walk(x.test); walk(x.orelse)
+            return
+        if t is ast.Dict:
+            for k, v in zip(x.keys, x.values):
+                if k is not None:
+                    walk(k)
+                walk(v)
+            return
+        if t is ast.Lambda:
+            po, pk, _, ko, _ = lambda_params(x.args)
+            for _, d in po + pk + ko:
+                if d is not None:
+                    walk(d)
+            walk(x.body)
+            return
+        if t is ast.FormattedValue:
+            walk(x.value)      # a format spec is not stored (finding F3); its names are checked by the names test
+            return
+        if t is ast.Constant or not isinstance(x, ast.AST):
+            return
+        for f in x._fields:
+            v = getattr(x, f)
+            for y in (v if isinstance(v, list) else [v]):
+                if isinstance(y, ast.AST):
+                    walk(y)
+    walk(n)
+    return out
+
+
 def depth_of(n) -> int:
     kids = [c for c in ast.iter_child_nodes(n) if not isinstance(c, (ast.expr_context, ast.operator, ast.unaryop, ast.boolop, ast.cmpop, ast.arguments, ast.arg))]
     if isinstance(n, ast.Lambda):
@@ -821,6 +870,17 @@ def direct_eval(expr, Eexp, top=4):
         names = [p.name for p in flat if isinstance(p, ExprName)]
         if names != py_names(Eexp):
             detail["names"] = [names, py_names(Eexp)]
+        # dotted chains rooted at a plain name: each attribute name must carry the dotted prefix as its path
+        got_paths = []
+        for p in flat:
+            if isinstance(p, ExprName) and isinstance(p.parent, ExprName):
+                root = p
+                while isinstance(root.parent, ExprName):
+                    root = root.parent
+                if root.parent is not None and not isinstance(root.parent, str):
+                    got_paths.append(p.path)
+        if got_paths != py_dotted(Eexp):
+            detail["dotted_paths"] = [got_paths, py_dotted(Eexp)]
     return (not detail), detail
 
 
@@ -917,7 +977,7 @@ def check_case(ctx, c, obj, out, stream):
     if ok:
         ctx.observe("outcome", "ok" if not gaps else "ok-but-gap-flagged")
         return
-    only_names = set(detail) == {"names"}
+    only_names = set(detail) <= {"names", "dotted_paths"}
     fam = pick_family(gaps)
     if only_names:   # a lost or spurious name is explained only by the families that drop / invent sub-expressions
         fam = 10 if 10 in gaps else 3 if 3 in gaps else None
@@ -1247,7 +1307,7 @@ def search(ctx):
                     continue
                 gaps = py_gaps_top(c["Eexp"], c["top"])
                 fam = pick_family(gaps)
-                if set(detail) == {"names"}:
+                if set(detail) <= {"names", "dotted_paths"}:
                     fam = 10 if 10 in gaps else 3 if 3 in gaps else None
                 if fam is None:
                     ctx.property_failure(case_json(c), detail)
